@@ -9,6 +9,11 @@
 (***************************************************************************)
 EXTENDS ParamCases
 
+\* Where the request media type of an operation with form parameters is declared: by the operation's own
+\* `consumes`, or inherited from the document's `consumes` (while the document's `produces` is JSON).
+\* The client must send, and the server accept, the same media type in both cases.
+MediaDecl == {"operation", "document"}
+
 (* ---- request half ---- *)
 \* the values a conforming client may send for p: exactly the values Bind can produce
 SendableValues(p) == {Bind(p, f).val : f \in {g \in Frags(p) : Bind(p, g).ok /\ Bind(p, g).set}}
